@@ -126,6 +126,16 @@ func (c *Ctx) typeCasePaths(fd *ast.FuncDecl, x *SX, par types.Object) ([]casePa
 		}
 		cp := casePath{Path: p, None: true}
 		for _, cd := range p.Conds() {
+			// `operand == nil` is the nil case spelled as a comparison
+			if b, ok := cd.T.(TBin); ok && (b.Op == token.EQL || b.Op == token.NEQ) {
+				x, y := b.X, b.Y
+				if _, isNil := x.(TNil); isNil {
+					x, y = y, x
+				}
+				if _, isNil := y.(TNil); isNil && isParamTerm(x, par) {
+					cd = Cond{T: TTypeIs{X: x, To: nil}, Truth: cd.Truth == (b.Op == token.EQL), Node: cd.Node}
+				}
+			}
 			op, T, isTest := kindTestOf(cd.T)
 			if !isTest || !isParamTerm(op, par) {
 				return nil, "decision that is not a type test of the operand: " + c.termStr(cd.T)
@@ -186,7 +196,9 @@ func c12R1(c *Ctx) {
 		}
 		res := p.Vals[0]
 		// the operand as the arm sees it: narrowed (single-type case / comma-ok) or the parameter itself (multi-type case)
-		opnd := func(t Term) bool { return sameTerm(t, cp.Assert) || sameTerm(t, TProj{cp.Assert, 0}) || isParamTerm(t, par) }
+		opnd := func(t Term) bool {
+			return sameTerm(t, cp.Assert) || sameTerm(t, TProj{cp.Assert, 0}) || isParamTerm(t, par)
+		}
 		if !cp.IsNil && c.Inv().ContByIface(cp.T) != nil {
 			ob.Check(opnd(res) && len(p.Effects()) == 0, "container operand is stored as is (kind "+c.kindOfType(cp.T)+")", "container arm does not return its operand")
 			seenKinds[c.kindOfType(cp.T)]++
